@@ -101,11 +101,9 @@ theorem converging_shock_compressive (p : GudJump.P) (hγ : 1 < p.gamma_d) :
   have h1 : 0 < p.gamma_d - 1 := by linarith
   have h2 : 0 < p.gamma_d + 1 := by linarith
   constructor
-  · have : GudJump.Rs p = (p.gamma_d + 1) / (p.gamma_d - 1) := by
-      simp only [epv_tree]; split_ifs <;> rfl
+  · have : GudJump.Rs p = (p.gamma_d + 1) / (p.gamma_d - 1) := (start_form p).2.2
     rw [this, lt_div_iff₀ h1]; linarith
-  · have : GudJump.Cs p = Real.sqrt (2 * p.gamma_d * (p.gamma_d - 1)) / (p.gamma_d + 1) := by
-      simp only [epv_tree]; split_ifs <;> rfl
+  · have : GudJump.Cs p = Real.sqrt (2 * p.gamma_d * (p.gamma_d - 1)) / (p.gamma_d + 1) := (start_form p).2.1
     rw [this]
     have : 0 < 2 * p.gamma_d * (p.gamma_d - 1) := by nlinarith
     have := Real.sqrt_pos.mpr this
